@@ -521,11 +521,15 @@ lazy_stat(struct archive_write_disk *a)
 	/*
 	 * XXX At this point, symlinks should not be hit, otherwise
 	 * XXX a race occurred.  Do we want to check explicitly for that?
+	 *
+	 * While the data goes to a temporary file, that is the file
+	 * whose size and attributes are wanted, not the one it is
+	 * going to replace.
 	 */
 #ifdef HAVE_LSTAT
-	if (lstat(a->name, &a->st) == 0)
+	if (lstat(a->tmpname != NULL ? a->tmpname : a->name, &a->st) == 0)
 #else
-	if (la_stat(a->name, &a->st) == 0)
+	if (la_stat(a->tmpname != NULL ? a->tmpname : a->name, &a->st) == 0)
 #endif
 	{
 		a->pst = &a->st;
